@@ -252,7 +252,7 @@ func genCase(t *rapid.T) Case {
 }
 
 func TestC05(t *testing.T) {
-	ev.Rapid(t, rec, "histories", rec.Scale(4000, 250000), genCase, func(c Case) *ev.Failure {
+	ev.Rapid(t, rec, "histories", rec.Scale(4000, 1500000), genCase, func(c Case) *ev.Failure {
 		st := &Stats{}
 		f := runCase(c, st)
 		var cl []string
